@@ -2495,8 +2495,14 @@ static Node *cast(Token **rest, Token *tok) {
 //       | "&&" ident
 //       | postfix
 static Node *unary(Token **rest, Token *tok) {
-  if (equal(tok, "+"))
-    return cast(rest, tok->next);
+  if (equal(tok, "+")) {
+    // The integer promotions are performed on the operand.
+    Node *node = cast(rest, tok->next);
+    add_type(node);
+    if (is_integer(node->ty) && node->ty->size < ty_int->size)
+      return new_cast(node, ty_int);
+    return node;
+  }
 
   if (equal(tok, "-"))
     return new_unary(ND_NEG, cast(rest, tok->next), tok);
